@@ -314,12 +314,16 @@ def register2(reg):
         return files_ok(ctx, d)
 
     def fin_post(ctx, r):
+        return fin_post_of(ctx)
+
+    def _unused_fin_post(ctx, r):
         d0 = ctx.old.get(ctx.self, "data")
         i = z3.Int(sv.uid("fi"))
         s = lambda k: entry_str_e(d0.at(k).items[1])
         gone = z3.ForAll([i], Implies(And(0 <= i, i < d0.n, entry_is_str(d0.at(i).items[1])), Not(fexists(ctx).dom(s(i)))))
         return And(ctx.get(ctx.self, "data").n == 0, gone, only_removed(ctx, d0))
 
+    global FIN_INV
     def fin_inv(ctx):
         d0 = ctx.old.get(ctx.self, "data")
         d = ctx.get(ctx.self, "data")
@@ -333,6 +337,7 @@ def register2(reg):
                    z3.ForAll([i], Implies(And(0 <= i, i < d0.n), sv.value_eq(d.at(i), d0.at(i)))),
                    z3.ForAll([x], fx1.dom(x) == And(fx0.dom(x), Not(removed(x)))))
 
+    FIN_INV = fin_inv
     reg.add(Contract(
         f"{OUT}.finalize", self_cls="Output", props=["C10.4"], params={},
         requires=fin_pre, ensures=fin_post, modifies=lambda ctx: [(ctx.self, "data"), (WORLD, "$fexists")],
@@ -466,3 +471,15 @@ def register3(reg):
         must_raise={"FinamNoDataError": not_exchanged, "FinamDataError": shares_with_previous},
         raise_frame_empty=True,
     ))
+
+
+def fin_post_of(ctx):
+    """after finalize: empty buffer, every spill file it referenced is gone, nothing else was touched"""
+    d0 = ctx.old.get(ctx.self, "data")
+    i = z3.Int(sv.uid("fi"))
+    s = lambda k: entry_str_e(d0.at(k).items[1])
+    gone = z3.ForAll([i], Implies(And(0 <= i, i < d0.n, entry_is_str(d0.at(i).items[1])), Not(fexists(ctx).dom(s(i)))))
+    return And(ctx.get(ctx.self, "data").n == 0, gone, only_removed(ctx, d0))
+
+
+FIN_INV = None
